@@ -87,6 +87,7 @@ def check_merge(tracks, merged):
         outs.append(('merge_tracks', mido.merge_tracks(real)))
         outs.append(('merge_tracks/skip_checks', mido.merge_tracks(real, skip_checks=True)))
         outs.append(('merge_tracks/lists', mido.merge_tracks([list(t) for t in real])))
+        outs.append(('merge_tracks/generator-of-tuples', mido.merge_tracks(tuple(t) for t in real)))
         outs.append(('merged_track', mido.MidiFile(tracks=real).merged_track))
     except Exception as e:
         return 'raises/' + type(e).__name__, repr(e)
